@@ -100,6 +100,9 @@ BASES = [
     {"name": "xorpe", "container": "xorpe", "size": 4200, "filler": {"kind": "zeros", "seed": 4},
      "blocks": [{"key": 0x2E, "at": 32, "settings": _CFG, "pad": "full"}], "pe": _PE86,
      "xor": {"nonce": "a1b2c3d4", "stub": hx(b"\xfc\xe8" + bytes(range(1, 60)) + b"\xff\xff\xff")}},
+    {"name": "xorpe_key0", "container": "xorpe", "size": 4200, "filler": {"kind": "random", "seed": 8},
+     "blocks": [{"key": 0x00, "at": 48, "settings": _CFG, "pad": "full"}], "pe": _PE64,
+     "xor": {"nonce": "0badf00d", "stub": hx(b"\xe8" + bytes(range(2, 40)) + b"\xff\xff\xff")}},
     {"name": "guard_raw", "container": "raw", "size": 300, "filler": {"kind": "random", "seed": 5}, "guards": [_GUARD]},
     {"name": "guard_xorpe", "container": "xorpe", "size": 64, "filler": {"kind": "random", "seed": 6},
      "guards": [dict(_GUARD, at=16)], "pe": _PE64,
@@ -584,16 +587,25 @@ def execute(plan: dict) -> Result:
                     res.nontrivial = True
             elif entry == "find_architecture":
                 check(entry, lambda s: pe.find_architecture(s.file(img)), str, allow_none=True)
+                # (documented: start_offset=None searches from the current file position - here the start of the file)
+                check(entry + ":from_current_position", lambda s: pe.find_architecture(s.file(img), start_offset=None), str, allow_none=True)
             elif entry == "find_compile_stamps":
                 v = check(entry, lambda s: pe.find_compile_stamps(s.file(img)), tuple)
+                check(entry + ":from_current_position", lambda s: pe.find_compile_stamps(s.file(img), start_offset=None), tuple)
                 if v and v[1] is not None:
                     res.probes["export_rva_in_section"] += 1
             elif entry == "find_magic_mz":
                 check(entry, lambda s: pe.find_magic_mz(s.file(img)), bytes, allow_none=True)
+                # (documented: start_offset=None searches from the current file position - here the start of the file)
+                check(entry + ":from_current_position", lambda s: pe.find_magic_mz(s.file(img), start_offset=None), bytes, allow_none=True)
             elif entry == "find_magic_pe":
                 check(entry, lambda s: pe.find_magic_pe(s.file(img)), bytes, allow_none=True)
+                # (documented: start_offset=None searches from the current file position - here the start of the file)
+                check(entry + ":from_current_position", lambda s: pe.find_magic_pe(s.file(img), start_offset=None), bytes, allow_none=True)
             elif entry == "find_stage_prepend_append":
                 check(entry, lambda s: pe.find_stage_prepend_append(s.file(img)), tuple)
+                # (documented: start_offset=None searches from the current file position - here the start of the file)
+                check(entry + ":from_current_position", lambda s: pe.find_stage_prepend_append(s.file(img), start_offset=None), tuple)
             elif entry == "artifactkit":
                 if len(img) <= 50000:
                     v = check(entry, lambda s: list(artifact.iter_artifactkit_payloads(s.file(img))), list)
